@@ -2,8 +2,9 @@
 from contracts.C03_container_validate import ContainerValidate
 from contracts.C04_field_validate import ArrayValidate
 from contracts.C05_component_restore import RunSchemaComponentChecks
-from contracts.C06_run_checks import ArrayCollect, ArrayCollectPrefix
+from contracts.C06_run_checks import (ArrayCollect, ArrayCollectPrefix, ArrayRunChecks, ColumnRunChecks, ContainerRunChecks, PolarsColumnRunChecks,
+                                      PolarsContainerRunChecks)  # one result per declared check: nothing a later check reports is lost
 from contracts.C19_check_options import PostprocessField, RunCheck  # which cells a failing check reports
 from contracts.C03_polars_container_validate import PolarsContainerValidate
 
-CONTRACTS = [ArrayCollect, ArrayCollectPrefix, RunSchemaComponentChecks, ContainerValidate, ArrayValidate, PolarsContainerValidate, PostprocessField, RunCheck]
+CONTRACTS = [ArrayCollect, ArrayCollectPrefix, RunSchemaComponentChecks, ContainerValidate, ArrayValidate, PolarsContainerValidate, PostprocessField, RunCheck, ArrayRunChecks, ColumnRunChecks, ContainerRunChecks, PolarsColumnRunChecks, PolarsContainerRunChecks]
